@@ -16,7 +16,12 @@ import (
 
 // makeToken returns one of the realisable token cases for the given server secret.
 func makeToken(secret string) (tok string, valid bool, name string) {
-	switch verifnd.Choice(5) {
+	switch verifnd.Choice(6) {
+	case 4:
+		// a well-formed, unexpired token signed with the empty key: what a client can forge against a server
+		// that holds no secret
+		t, _ := httpcmn.GenerateHagallUserAccessToken("app", "", time.Hour)
+		return t, false, "empty_key"
 	case 0:
 		if secret == "" {
 			return "", false, "none"
